@@ -277,6 +277,8 @@ class RT:
         inner = [it2fn(a) for a in xs]
         if any(isinstance(b, (SymSeq, SymRange, SymMap, LazyMap)) for b in inner):
             return LazyProduct(kind, fn, xs, it2fn)
+        if kind == "gen":
+            return (fn(a)(b) for a, bs in zip(xs, inner) for b in bs)
         return [fn(a)(b) for a, bs in zip(xs, inner) for b in bs]
 
     def comp(self, kind, fn, it, flt):
